@@ -40,7 +40,7 @@ ARGS = {
     ("C02", "quick"): ["-modes", "paths,sequence,thresholds,cancel", "-sequence-random", "15", "-thr-pipelines", "3", "-cancel-random", "2"],
     ("C02", "thorough"): ["-modes", "paths,sequence,thresholds,cancel,random", "-sequence-random", "200", "-thr-pipelines", "4", "-cancel-random", "12", "-cancel-reps", "3", "-random", "1500"],
     ("C03", "quick"): ["-modes", "paths,twosend,cancel,random", "-twosend-reps", "3", "-cancel-random", "6", "-random", "150"],
-    ("C03", "thorough"): ["-modes", "paths,twosend,sequence,cancel,random,shapes", "-twosend-reps", "8", "-sequence-random", "100", "-cancel-random", "40", "-cancel-reps", "4", "-random", "2500", "-shape-pipelines", "3"],
+    ("C03", "thorough"): ["-modes", "paths,twosend,sequence,cancel,random,shapes", "-twosend-reps", "8", "-twosend-gates", "4", "-sequence-random", "100", "-cancel-random", "40", "-cancel-reps", "4", "-random", "2500", "-shape-pipelines", "3"],
 }
 
 ASSUMPTIONS = [
